@@ -168,3 +168,35 @@ theorem joinWith_splitTerminatorLF (t : Text) :
     simp only [this, hne, if_false, List.append_nil, joinWith_splitLF]
 
 end TW
+
+namespace TW
+
+theorem splitCRLF_ne_nil (t : Text) : splitCRLF t ≠ [] := by
+  match t with
+  | [] => simp [splitCRLF]
+  | [c] => simp [splitCRLF]
+  | c :: d :: cs =>
+    simp only [splitCRLF]
+    split
+    · simp
+    · exact consHead_ne_nil _ _
+
+theorem joinWith_splitCRLF (t : Text) : joinWith [CR, LF] (splitCRLF t) = t := by
+  match t with
+  | [] => simp [splitCRLF, joinWith]
+  | [c] => simp [splitCRLF, joinWith]
+  | c :: d :: cs =>
+    simp only [splitCRLF]
+    split
+    · next h =>
+      obtain ⟨rfl, rfl⟩ := h
+      have ih := joinWith_splitCRLF cs
+      obtain ⟨a, r, hr⟩ : ∃ a r, splitCRLF cs = a :: r := by
+        cases h' : splitCRLF cs with
+        | nil => exact absurd h' (splitCRLF_ne_nil cs)
+        | cons a r => exact ⟨a, r, rfl⟩
+      rw [hr, joinWith_cons_cons, ← hr, ih]; simp
+    · have ih := joinWith_splitCRLF (d :: cs)
+      rw [joinWith_consHead _ _ _ (splitCRLF_ne_nil _), ih]
+
+end TW
